@@ -316,6 +316,65 @@ def _evaluate(job):
         return label, "crash", repr(e)[:160]
 
 
+# ------------------------------------------------------------------------------------------------ surroundings variants
+_WRAP_SRC = (
+    "\n\ndef _sv_memo(fn):\n"
+    "    import functools\n"
+    "    seen = {}\n"
+    "    @functools.wraps(fn)\n"
+    "    def wrapper(*args, **kwargs):\n"
+    "        key = id(args[0]) if args else None\n"
+    "        if key not in seen:\n"
+    "            seen[key] = fn(*args, **kwargs)\n"
+    "        return seen[key]\n"
+    "    return wrapper\n\n"
+)
+
+
+def surroundings_variants(pid, ctx, limit=40):
+    """Variants that leave every function body untouched: (a) a memoising decorator (keyed by the identity of the first
+    argument only) on a function the property specifies; (b) an override of a specified method in a subclass that has none.
+    Each must turn an obligation red, for every specified function - not only for the ones a stored seed happens to touch."""
+    program = ctx.program
+    K = ctx.contracts
+    from . import props as PROPS
+    spec = sorted({q for (q, v) in K.refs if pid in K.refs[(q, v)][2].get("props", [])} | set(getattr(PROPS.get(pid), "PROTECTED", [])))
+    if pid in PURITY_PROPS:
+        # purity is decided for every entry point, not for a list of contracts
+        try:
+            spec = sorted(set(spec) | set(PROPS.get(pid).entry_points(program)))
+        except Exception:
+            pass
+    work = []
+    for q in spec:
+        fi = program.functions.get(q)
+        if fi is None:
+            continue
+        lines = fi.module.src.split("\n")
+        first = min([d.lineno for d in fi.node.decorator_list] + [fi.node.lineno])
+        indent = " " * fi.node.col_offset
+        # the decorator goes innermost (directly above `def`), after property / staticmethod / classmethod
+        new = lines[:fi.node.lineno - 1] + [indent + "@_sv_memo"] + lines[fi.node.lineno - 1:]
+        # helper definition after the module's imports / before the first class or function
+        body = fi.module.tree.body
+        anchor = next((b.lineno for b in body if isinstance(b, (ast.ClassDef, ast.FunctionDef))), 1)
+        anchor = min([anchor] + [d.lineno for b in body if isinstance(b, (ast.ClassDef, ast.FunctionDef)) for d in b.decorator_list])
+        src = "\n".join(new[:anchor - 1]) + _WRAP_SRC + "\n".join(new[anchor - 1:])
+        work.append((pid, fi.module.relpath, src, f"S|{q}|decorate|memoising decorator keyed by id(first argument)"))
+        if fi.cls is not None and not fi.name.startswith("__") and pid not in PURITY_PROPS:    # (an override that returns None is pure)
+            subs = [c for c in program.subclasses(fi.cls, strict=True) if fi.name not in c.methods and c.module is fi.module]
+            if subs:
+                c = subs[0]
+                last = max(getattr(n, "end_lineno", c.node.lineno) for n in c.node.body)
+                ind = " " * (c.node.body[0].col_offset)
+                dec = [ind + "@" + d for d in fi.decorators if d in ("property", "staticmethod", "classmethod")]
+                params = ", ".join(fi.params) if fi.params else ""
+                ov = dec + [ind + f"def {fi.name}({params + (', ' if params else '')}*args, **kwargs):", ind + "    return None", ""]
+                new2 = lines[:last] + [""] + ov + lines[last:]
+                work.append((pid, fi.module.relpath, "\n".join(new2), f"S|{q}|override|{c.name}.{fi.name} overrides it"))
+    return work[:limit * 2]
+
+
 # ------------------------------------------------------------------------------------------------ stored corpus
 def apply_unified_diff(files, diff_text):
     """Apply a git unified diff to {relpath: source}; returns {relpath: new source} for the touched files (in memory)."""
@@ -473,9 +532,19 @@ def run(pid, ctx, seed):
             continue
         rwn += 1
         work.append((pid, fi.module.relpath, splice(fi.module, fi.node, new), f"R|{q}|{name}|"))
+    try:
+        sv_work = surroundings_variants(pid, ctx)
+    except Exception as e:                      # never let the generator of variants decide a verdict
+        sv_work = []
+    rng.shuffle(sv_work)
+    sv_work = sv_work[:60]
+    work = work + sv_work
     nproc = min(16, os.cpu_count() or 4)
     with multiprocessing.get_context("fork").Pool(nproc) as pool:
         results = pool.map(_evaluate, work, chunksize=4)
+    sur = [r for r in results if r[0].startswith("S|")]
+    sur_valid = [r for r in sur if r[1] != "invalid"]
+    sur_green = [r for r in sur_valid if r[1] == "green"]
     mut = [r for r in results if r[0].startswith("M|")]
     rws = [r for r in results if r[0].startswith("R|")]
     killed = [r for r in mut if r[1] == "red"]
@@ -494,6 +563,10 @@ def run(pid, ctx, seed):
     obs.append(Ob("selftest.rewrites", "selftest", where, "ok" if not rw_red else "inconclusive",
                   f"{len(rws) - len(rw_red)}/{len(rws)} equivalence-preserving rewrites keep every obligation green"
                   + (f"; NOT silent on: {[r[0] for r in rw_red][:5]}" if rw_red else "")))
+    obs.append(Ob("selftest.surroundings", "selftest", where, "ok" if not sur_green else "inconclusive",
+                  f"{len(sur_valid) - len(sur_green)}/{len(sur_valid)} variants that leave all bodies untouched (memoising decorator on a specified "
+                  f"function, override in a subclass) turn an obligation red"
+                  + (f"; NOT reported: {[r[0] for r in sur_green][:5]}" if sur_green else "")))
     cor = corpus(pid, ctx)
     obs = obs + cor.pop("obligations", [])
     return {
@@ -507,6 +580,8 @@ def run(pid, ctx, seed):
             "survivors": [r[0] for r in survived][:60],
             "rewrites_run": len(rws), "rewrites_silent": len(rws) - len(rw_red), "rewrites_not_silent": [f"{r[0]} -> {r[2]}" for r in rw_red][:20],
             "crashes": [f"{r[0]} -> {r[2]}" for r in crashed][:10],
+            "surroundings_run": len(sur_valid), "surroundings_red": len(sur_valid) - len(sur_green),
+            "surroundings_not_reported": [r[0] for r in sur_green][:20], "surroundings_invalid": len(sur) - len(sur_valid),
             "samples": [f"{r[0]} => {r[1]} {r[2]}" for r in mut[:12]],
         },
     }
